@@ -123,6 +123,46 @@ func GenSeq(t *rapid.T) SeqCase {
 			Op{S: s, Kind: "read", Fid: 1, Count: 65536},
 		)
 	}
+	if rapid.IntRange(0, 2).Draw(t, "deepblock") == 0 {
+		// a directory chain /a/b/c with handles at depth 3 and several walks that climb two or
+		// three levels and descend again (handles created from one another share ancestry)
+		s := rapid.IntRange(0, c.Sessions-1).Draw(t, "ds")
+		leaf := rapid.SampledFrom([]string{"c", "b", "zz"}).Draw(t, "dleaf")
+		up := rapid.IntRange(2, 3).Draw(t, "dup")
+		var dd []string
+		for i := 0; i < up; i++ {
+			dd = append(dd, "..")
+		}
+		target := []string{"a", "b", leaf}[3-up:]
+		if rapid.Bool().Draw(t, "dsibling") {
+			// … or descend into a *sibling* of the path just climbed
+			if up == 2 {
+				target = []string{"zz"}
+			} else {
+				target = []string{"a", "zz"}
+			}
+		}
+		c.Ops = append(c.Ops,
+			Op{S: s, Kind: "walk", Fid: 0, Newfid: 1},
+			Op{S: s, Kind: "create", Fid: 1, Name: "a", Dir: true},
+			Op{S: s, Kind: "walk", Fid: 1, Newfid: 2},
+			Op{S: s, Kind: "create", Fid: 2, Name: "zz", Dir: true},
+			Op{S: s, Kind: "clunk", Fid: 2},
+			Op{S: s, Kind: "walk", Fid: 1, Newfid: 2},
+			Op{S: s, Kind: "create", Fid: 2, Name: "b", Dir: true},
+			Op{S: s, Kind: "walk", Fid: 2, Newfid: 3},
+			Op{S: s, Kind: "create", Fid: 3, Name: "c", Dir: true},
+			Op{S: s, Kind: "walk", Fid: 3, Newfid: 4},
+			Op{S: s, Kind: "clunk", Fid: 2},
+			Op{S: s, Kind: "walk", Fid: 3, Newfid: 2, Names: append(append([]string{}, dd...), target...)},
+			Op{S: s, Kind: "walk", Fid: 3, Newfid: 3, Names: []string{".."}},
+			Op{S: s, Kind: "list", Fid: 3},
+			Op{S: s, Kind: "walk", Fid: 4, Newfid: 4, Names: append(append([]string{}, dd...), target...)},
+			Op{S: s, Kind: "stat", Fid: 4},
+			Op{S: s, Kind: "list", Fid: 4},
+			Op{S: s, Kind: "stat", Fid: 2},
+		)
+	}
 	max := 50
 	if harn.Thorough() {
 		max = 100
